@@ -98,6 +98,47 @@ Theorem C04_one_message_per_source_per_step :
 Proof. exact rstep_push_budget. Qed.
 Print Assumptions C04_one_message_per_source_per_step.
 
+(* Both halves across one edge: a publisher run [s_its] and a consumer run [r_its], each under ANY schedule of its own, joined by
+   a request channel that invents nothing (the publisher reads from consumer k no more frame requests than the consumer has pushed
+   to it - ZeroMQ PUSH/PULL neither duplicates nor fabricates messages).  Then the frames published while the consumer is
+   tracked number at most the consumer's spending steps: its empty polls (one per set handed over, one per interval spent
+   waiting), out-of-band messages and destroy().  A consumer that always finds its frame queued - slower than its producer for the
+   whole run - has one empty poll per set it takes, so what has been published towards it exceeds what it has taken by no more
+   than the steps it spent otherwise, whatever the length of the run (pipeline counterpart: 'slow-consumer:backlog-grows'). *)
+Theorem C04_edge_flow_bound :
+  forall kc ku nout required s_its v i r_its st,
+    Forall no_push_item s_its -> Forall (k_sync_item kc ku) s_its ->
+    (total_req kc ku s_its <= pushes_to i (snd (rrun v st r_its)))%nat ->
+    (total_pub kc ku (init_sender nout false required) s_its <= spent r_its)%nat.
+Proof.
+  intros kc ku nout required s_its v i r_its st H1 H2 Hch.
+  pose proof (sender_credit_bound kc ku nout required s_its H1 H2) as A.
+  pose proof (request_budget v i r_its st) as B. lia.
+Qed.
+Print Assumptions C04_edge_flow_bound.
+
+(* ... and in terms of the backlog: every set the consumer is handed costs it an empty poll (C04_returns_cost_empty_polls), so
+   (frames published towards it) - (sets it has taken) is at most the number of its spending steps that did NOT hand over a set:
+   the intervals it spent waiting, its out-of-band messages, destroy().  For a consumer that never waits that number does not
+   grow with the run. *)
+Theorem C04_returns_cost_empty_polls :
+  forall v its st, (rets (snd (rrun v st its)) <= empty_polls its)%nat /\ (empty_polls its <= spent its)%nat.
+Proof. intros. split; [apply returns_cost_empty_polls|apply empty_polls_le_spent]. Qed.
+Print Assumptions C04_returns_cost_empty_polls.
+
+Theorem C04_backlog_bound :
+  forall kc ku nout required s_its v i r_its st,
+    Forall no_push_item s_its -> Forall (k_sync_item kc ku) s_its ->
+    (total_req kc ku s_its <= pushes_to i (snd (rrun v st r_its)))%nat ->
+    (total_pub kc ku (init_sender nout false required) s_its - rets (snd (rrun v st r_its))
+       <= spent r_its - rets (snd (rrun v st r_its)))%nat.
+Proof.
+  intros kc ku nout required s_its v i r_its st H1 H2 Hch.
+  pose proof (sender_credit_bound kc ku nout required s_its H1 H2) as A.
+  pose proof (request_budget v i r_its st) as B. lia.
+Qed.
+Print Assumptions C04_backlog_bound.
+
 (* the bound is met: a call, an empty poll (the consumer asks), a delivery, a poll that reads it (nothing sent), an empty poll
    (the set is complete: the prefetch goes out with the return) - two messages to the source, two spending steps of five *)
 Example C04_request_budget_tight :
